@@ -505,11 +505,12 @@ Proof.
       rewrite <- app_assoc. cbn [app].
       eapply aft_cond.
       * rewrite start_skip_nl by exact Hst.
-        apply (M_closed _ Mt LExpr false); try assumption; try discriminate.
+        apply (M_closed _ Mt LExpr pc); try assumption; try congruence.
         -- apply ok_zero. reflexivity.
-        -- cbn. lia.
+        -- destruct pc; cbn; lia.
       * rewrite start_skip_nl by exact Hsf.
-        apply (M_closed _ Mf LExpr false); try assumption; try discriminate.
+        apply (M_closed _ Mf LExpr pc); try assumption; try congruence.
+        destruct pc; exact Hc.
 Qed.
 
 Lemma is_lvalue_ret l : is_lvalue l = true -> ret_lvl l = LPrimary.
